@@ -479,6 +479,7 @@ static void rays_for(const VCfg &cfg, const std::string &type, int field, bool t
 int main(int argc, char **argv) {
   Args A = parse_args(argc, argv);
   Result R(A);
+  c16_install_fault_handler();
   const std::vector< VCfg > cfgs = all_cfgs(A.seed);
   if (A.replay.empty() && !freopen("/dev/null", "w", stderr)) {
   }
